@@ -177,6 +177,53 @@ pub fn load(dir: &Path, tier: Tier) -> Result<Catalogue, String> {
         }
     }
 
+    // near misses of every keyword: a cache with an imprecise key (truncated, hashed, case- or
+    // length-only) confuses these with the keyword once both have been seen in one process
+    let mut n_near = 0;
+    for s in &base {
+        if !s.id.starts_with('k') || s.text.is_empty() {
+            continue;
+        }
+        let (pct, word) = match s.text.strip_prefix('%') {
+            Some(w) => ("%", w),
+            None => ("", s.text.as_str()),
+        };
+        if !word.chars().all(|c| c.is_ascii_alphanumeric() || c == '_') {
+            continue;
+        }
+        let up = word.to_ascii_uppercase();
+        let mut vars: Vec<String> = vec![
+            format!("my{word}"),
+            format!("xx{}", &word[1.min(word.len())..]),
+            format!("{word}xx"),
+            format!("{word}1"),
+            format!("_{word}"),
+            format!("{}z", &word[..word.len() - 1]),
+            format!("z{}", &word[1.min(word.len())..]),
+            word[1.min(word.len())..].to_string(),
+            word[..word.len() - 1].to_string(),
+            format!("{word}{word}"),
+            up.clone(),
+        ];
+        if word.len() > 3 {
+            let mid = word.len() / 2;
+            vars.push(format!("{}q{}", &word[..mid], &word[mid + 1..]));
+            vars.push(format!("{}{}", &word[..mid], &word[mid + 1..]));
+        }
+        for (k, v) in vars.iter().enumerate() {
+            if v.is_empty() {
+                continue;
+            }
+            let t = if pct.is_empty() { format!("{v} {word};") } else { format!("%{v}(a) %{word} b;") };
+            if push(&mut sources, format!("w{}:{k}", s.id), format!("{pct}{v}")) {
+                n_near += 1;
+            }
+            if k < 4 && push(&mut sources, format!("w{}:{k}b", s.id), t) {
+                n_near += 1;
+            }
+        }
+    }
+
     // base sources with some ASCII letters/digits replaced by multi-byte characters
     let mut rng = Rng::new(UNI_SEED);
     let mut n_uni = 0;
@@ -299,18 +346,72 @@ pub fn load(dir: &Path, tier: Tier) -> Result<Catalogue, String> {
         }
     }
 
+    // medium: error- / token- / literal-dense sources of a few KB (still used by the simulator)
+    let mut n_medium = 0;
+    for (k, (head, unit, reps, tail)) in [
+        ("", "%let ;", 1500usize, ""),
+        ("", "%m(a", 1200, ""),
+        ("", "'a''b'x ", 900, ""),
+        ("%m(", "a=1,", 2000, "b)"),
+        ("", "%do i=;", 1100, ""),
+        ("", "1e ", 1500, ""),
+        ("", "%eval(1+", 1200, ""),
+        ("x=", "'a''b'||", 1500, "'c';"),
+        ("", "&a&&b.", 1500, ""),
+        ("", "%local /%put a;", 400, ""),
+        ("", "é ü ", 2000, ""),
+        ("", "a\n", 3000, ""),
+    ]
+    .iter()
+    .enumerate()
+    {
+        let t = format!("{}{}{}", head, unit.repeat(*reps), tail);
+        if push(&mut sources, format!("M{k:02}"), t) {
+            n_medium += 1;
+        }
+    }
+
+    // long: 0.1 - 1.5 MB (capacity heuristics at scale, u32 arithmetic, recursion depth,
+    // anything capped or sized by the source length). Reference passes and sweeps only.
+    let mut n_long = 0;
+    for (k, (head, unit, reps, tail)) in [
+        ("%let a=", "/*c*/ ", 20_000usize, "1;"),
+        ("", "x=1;\n", 220_000, ""),
+        ("/*", "c", 1_100_000, "*/ x=1; %put é;"),
+        ("data a; input x; datalines;\n", "1 2 3\n", 200_000, ";\nrun;"),
+        ("%m(", "a,", 100_000, "b)"),
+        ("'", "a''", 100_000, "'"),
+        ("", "é", 300_000, ""),
+        ("%macro m; ", "%if &a %then %do; x=1; %end;\n", 20_000, "%mend;"),
+        ("", "\n", 500_000, ""),
+        ("", "&a", 100_000, ""),
+        ("", "a ", 700_000, "%put done;"),
+        ("%m(a , /*c*/ b = ", "/*c*/ ", 20_000, ")"),
+    ]
+    .iter()
+    .enumerate()
+    {
+        let t = format!("{}{}{}", head, unit.repeat(*reps), tail);
+        if push(&mut sources, format!("L{k:02}"), t) {
+            n_long += 1;
+        }
+    }
+
     Ok(Catalogue {
         sources,
         classes: vec![
             ("base+curated", n_first),
             ("dense", n_dense),
             ("nested+repeated", n_nested),
+            ("keyword-near-misses", n_near),
             ("unicodified", n_uni),
             ("prefixes", n_prefix),
             ("splices", n_splice),
             ("generated", n_gen),
             ("generated-prefixes", n_gen_prefix),
             ("mutated", n_mut),
+            ("medium", n_medium),
+            ("long", n_long),
         ],
     })
 }
@@ -430,7 +531,20 @@ impl Gen<'_> {
             5 => "1e3".into(),
             6 => "1.2E-3".into(),
             7 => "0ffx".into(),
-            8 => "18446744073709551615".into(),
+            8 => self
+                .pick(&[
+                    "18446744073709551615",
+                    "18446744073709551616",
+                    "99999999999999999999",
+                    "9223372036854775808",
+                    "10000000000000000000",
+                    "123456789012345678901",
+                    "9007199254740993",
+                    "4294967296",
+                    "1234567890.1234567890123",
+                    "00000000000000000001",
+                ])
+                .to_string(),
             _ => format!("{}", self.rng.below(100_000)),
         }
     }
@@ -630,6 +744,7 @@ impl Gen<'_> {
             5 => format!("%let {}&{}={};", self.pick(NAMES), self.pick(NAMES), self.mtext(depth)),
             6 => format!("%put {};", self.mtext(depth)),
             7 => format!("%{} {} {};", self.pick(&["local", "global"]), self.pick(NAMES), self.pick(NAMES)),
+            8 if self.rng.chance(1, 4) => format!("%{} /{}", self.pick(&["local", "global"]), self.stmt(depth + 1)),
             8 => format!("%{} / readonly {}={};", self.pick(&["local", "global"]), self.pick(NAMES), self.mtext(depth)),
             9 => format!("%if {} %then {}", self.mexpr(depth), self.stmt(depth + 1)),
             10 => format!(
